@@ -10,6 +10,9 @@ from .engine import Report
 from .tlc import SPEC, VERIF
 
 REGISTRY: dict = {}
+TAGGED_CFGS = {'quick': 'MC_Grammar_tagged_q.cfg', 'thorough': 'MC_Grammar_tagged_t.cfg'}
+EXC_CFGS = {'quick': 'MC_Grammar_exc_q.cfg', 'thorough': 'MC_Grammar_exc_t.cfg'}
+COND_CFGS = {'quick': 'MC_Grammar_cond_q.cfg', 'thorough': 'MC_Grammar_cond_t.cfg'}
 
 
 def check(pid):
@@ -52,25 +55,16 @@ _EVENT_MAKERS = {'from_data': conv.ev_from_data}
 C01_CLAUSES = {'must-accept', 'must-reject', 'image', 'nondeterministic', 'foreign-exception'}
 
 
+CORE_CFGS = {'quick': 'MC_Grammar_core_q.cfg', 'thorough': 'MC_Grammar_core_t.cfg'}
+
+
 @check('C01')
 def c01(tier: str) -> int:
-    rep = Report('C01', tier)
-    cfg = 'MC_Grammar_core_q.cfg' if tier == 'quick' else 'MC_Grammar_core_t.cfg'
-    res = engine.model_check('MC_Grammar', cfg, dump=True)
-    rep.add_mc(res, cfg)
-    if res.violated:
-        rep.witness({'clause': 'law-of-sem', 'type_kind': ','.join(res.violated), 'value_kind': ''},
-                    {'tlc_output_tail': res.out[-3000:]})
-        return rep.finish()
-    states = engine.dump_states(res)
-    tvs = pipeline.cases_from_states(states)
-    rep.exhaustive = True
-    st = pipeline.run_events(rep, pipeline.spread_spellings(tvs, 1), C01_CLAUSES, label='c01')
-    rep.extra['replay'] = st
-    rep.assumptions += ['small-scope: types up to the configured depth over the leaf kinds of the config',
-                        'projection functions harness/vocab.py are trusted',
-                        'string facts are computed with the standard library']
-    return rep.finish()
+    return _multi_grammar('C01', tier, [
+        (CORE_CFGS, C01_CLAUSES, conv.ev_from_data, {'extra_sp': 1, 'reverse': True}),
+        (CLS_CFGS, C01_CLAUSES, conv.ev_from_data, {'extra_sp': 1, 'reverse': True}),
+        (SCALAR_CFGS, C01_CLAUSES, conv.ev_from_data, {}),
+    ])
 
 
 def _grammar_check(pid: str, tier: str, cfgs: dict, owned: set, make_event, *, reverse=False, extra_sp=1,
@@ -99,6 +93,7 @@ def _grammar_check(pid: str, tier: str, cfgs: dict, owned: set, make_event, *, r
 
 
 SCALAR_CFGS = {'quick': 'MC_Grammar_scalar_q.cfg', 'thorough': 'MC_Grammar_scalar_t.cfg'}
+CLS_CFGS = {'quick': 'MC_Grammar_cls_q.cfg', 'thorough': 'MC_Grammar_cls_t.cfg'}
 
 C03_CLAUSES = {'passes-disagree', 'internal-runtime-error', 'converterror-without-tree', 'accepted-with-tree', 'pass-raised'}
 
@@ -110,12 +105,23 @@ def c03(tier: str) -> int:
         (COND_CFGS, C03_CLAUSES, conv.ev_passes, {}),
         (EXC_CFGS, C03_CLAUSES, conv.ev_passes, {}),
         (TAGGED_CFGS, C03_CLAUSES, conv.ev_passes, {}),
+        (CLS_CFGS, C03_CLAUSES, conv.ev_passes, {}),
     ])
 
 
 @check('C09')
 def c09(tier: str) -> int:
-    return _grammar_check('C09', tier, SCALAR_CFGS, {'input-mutated'}, conv.ev_snapshot, extra_sp=0)
+    own = {'input-mutated'}
+    return _multi_grammar('C09', tier, [
+        (SCALAR_CFGS, own, conv.ev_snapshot, {}),
+        (CLS_CFGS, own, conv.ev_snapshot, {}),
+        (CLS_CFGS, own, conv.ev_snapshot_convert, {}),
+        (CLS_CFGS, own, conv.ev_snapshot_construct, {'filter': lambda T, v: T['k'] == 'cls'}),
+        (TAGGED_CFGS, own, conv.ev_snapshot, {}),
+        (TAGGED_CFGS, own, conv.ev_snapshot_convert, {}),
+        (SCALAR_CFGS, own, conv.ev_snapshot_into, {}),
+        (CLS_CFGS, own, conv.ev_snapshot_into, {}),
+    ])
 
 
 C05_CLAUSES = {'serialise-failed', 'not-interchange', 'serialised-form', 'reparse-failed', 'reparse-differs',
@@ -124,7 +130,11 @@ C05_CLAUSES = {'serialise-failed', 'not-interchange', 'serialised-form', 'repars
 
 @check('C05')
 def c05(tier: str) -> int:
-    return _grammar_check('C05', tier, SCALAR_CFGS, C05_CLAUSES, conv.ev_roundtrip, extra_sp=0)
+    return _multi_grammar('C05', tier, [
+        (SCALAR_CFGS, C05_CLAUSES, conv.ev_roundtrip, {}),
+        (CLS_CFGS, C05_CLAUSES, conv.ev_roundtrip, {}),
+        (TAGGED_CFGS, C05_CLAUSES, conv.ev_roundtrip, {}),
+    ])
 
 
 C06_CLAUSES = {'fixpoint-refused', 'fixpoint-differs', 'native-refused', 'native-differs', 'twice-refused', 'twice-differs'}
@@ -132,7 +142,10 @@ C06_CLAUSES = {'fixpoint-refused', 'fixpoint-differs', 'native-refused', 'native
 
 @check('C06')
 def c06(tier: str) -> int:
-    return _grammar_check('C06', tier, SCALAR_CFGS, C06_CLAUSES, conv.ev_fixpoint, extra_sp=0)
+    return _multi_grammar('C06', tier, [
+        (SCALAR_CFGS, C06_CLAUSES, conv.ev_fixpoint, {}),
+        (CLS_CFGS, C06_CLAUSES, conv.ev_fixpoint, {}),
+    ])
 
 
 _EVENT_MAKERS.update({'passes': conv.ev_passes, 'snapshot': conv.ev_snapshot, 'roundtrip': conv.ev_roundtrip,
@@ -204,7 +217,7 @@ def _multi_grammar(pid: str, tier: str, plans: list, *, extra=None) -> int:
             tvs = [tv for tv in tvs if flt(*tv)]
         st = pipeline.run_events(rep, pipeline.spread_spellings(tvs, opts.get('extra_sp', 0)), owned,
                                  label=f'{pid.lower()}-{maker.__name__}-{len(stats)}', make_event=maker,
-                                 reverse=False, child_event=opts.get('child_event'))
+                                 reverse=opts.get('reverse', False), child_event=opts.get('child_event'))
         stats[f'{cfg}:{maker.__name__}'] = st
     if extra:
         extra(rep, stats)
